@@ -1,2 +1,125 @@
-(* C01 statements pinned here *)
-From A1 Require Import Uper.Reader.
+(* C01 — UPER round trip: for every type and every value of its generated Rust type, if UPER
+   encoding succeeds then decoding the produced bits yields a value equal to the original and
+   consumes exactly the produced bits; also when several values are written back-to-back into one
+   writer and read back in the same order from one reader.
+   (Statements pinned here; proofs in Uper/Proofs.v.  Model: Uper/Writer.v, Uper/Reader.v — the
+   executable model of src/rw/uper.rs; reference encoder [enc], [wf_ty], [wf_val] and the excluded
+   classes [Known_C01] in Uper/Spec.v.  Both cargo profiles: [forall m : mode].)
+
+   Vocabulary:
+     [wst_wf w]       the writer's bit count equals the number of bits in its sink;
+     [rsrc s bs tail] the reader source [s] is positioned at the start of [bs ++ tail], [bs] lies
+                      within its declared length and its slice, the source still carries its whole
+                      buffer (absolute positions are meaningful) and the declared length is a usize;
+     [wsim r w e]     the writer run [r] from [w] succeeds with exactly the bits of the reference
+                      encoding [e] appended, or both fail;
+     [Rprop m t]      the reader inverts [enc m t] on every well-formed value outside [Known_C01].
+   Known classes ([Known_C01 m t v] = some node of the value is in one of them), each with a witness:
+     Known_C10_bitstring_16k / Known_C10_sized_length   BIT STRING of 16K bits or more with the
+         unconstrained length form (F10-2); OCTET/BIT STRING size constraints of the F10-1 family;
+     Known_C01_count_16k   SEQUENCE OF / restricted string with 16K elements or more and the
+         unconstrained length form (no fragmentation: a 16K multiple is announced, everything written);
+     Known_C01_size_F10_1  size constraints (lo, no hi) or hi >= 64K (values with lo <= n < 2*lo are
+         refused; the round trip of the others is not claimed here);
+     Known_C01_open_type_16k  open types (extension additions, extension CHOICE alternatives) whose
+         content is 16K octets or more (the writer fragments, the reader does not). *)
+From A1 Require Import Uper.Spec Uper.Proofs.
+Local Open Scope N_scope.
+
+(** * the main theorem: any type (SEQUENCE/SET nested arbitrarily, extensible or not, inside
+      open types, SEQUENCE OF, CHOICE), any writer state without an enclosing scope *)
+Theorem C01_roundtrip : forall m t v w w',
+  wf_ty t -> wf_val t v -> ~ Known_C01 m t v -> wst_wf w -> w_scope w = None ->
+  write_ty m t v w = Ok w' ->
+  exists bs, w_bits w' = w_bits w ++ bs /\ w_scope w' = None /\ wst_wf w' /\
+    forall s tail, rsrc s bs tail ->
+      read_ty m t (r_of_src s) = Ok (v, r_of_src (src_adv s (bl bs) tail)).
+Proof. exact C01_roundtrip_thm. Qed.
+
+(* the same with the produced bits identified as the reference encoding *)
+Theorem C01_roundtrip_reference : forall m t v w w',
+  wf_ty t -> wf_val t v -> ~ Known_C01 m t v -> wst_wf w -> w_scope w = None ->
+  write_ty m t v w = Ok w' ->
+  exists bs, enc m t v = Ok bs /\ w' = w_append w bs /\
+    w_bits w' = w_bits w ++ bs /\ w_scope w' = None /\ wst_wf w' /\
+    forall s tail, rsrc s bs tail ->
+      read_ty m t (r_of_src s) = Ok (v, r_of_src (src_adv s (bl bs) tail)).
+Proof. exact C01_roundtrip_full. Qed.
+
+(** * the two halves *)
+(* writer = reference encoder, including failure (no hypothesis on the value, no excluded class) *)
+Theorem C01_writer_is_reference : forall m t, wf_ty t ->
+  forall v w, wst_wf w -> w_scope w = None -> wsim (write_ty m t v w) w (enc m t v).
+Proof. exact write_enc. Qed.
+
+(* reader inverts the reference encoder *)
+Theorem C01_reader_inverts_reference : forall m t,
+  wf_ty t -> forall v bs, enc m t v = Ok bs -> wf_val t v -> ~ Known_C01 m t v ->
+  forall s tail, rsrc s bs tail ->
+  read_ty m t (r_of_src s) = Ok (v, r_of_src (src_adv s (bl bs) tail)).
+Proof. exact read_enc. Qed.
+
+(** * several values back to back (history form) *)
+Theorem C01_sequence : forall m l w',
+  Forall (item_ok m) l -> write_all m l w_empty = Ok w' -> bl (w_bits w') < two64 ->
+  exists r, read_all m (map fst l) (r_of_src (src_of_bits (w_bits w') (bl (w_bits w')))) = Ok (map snd l, r)
+            /\ src_remaining m (r_src r) = Ok 0.
+Proof. exact C01_sequence_full. Qed.
+
+Theorem C01_sequence_any_writer : forall m l w w', Forall (item_ok m) l -> wst_wf w -> w_scope w = None ->
+  write_all m l w = Ok w' ->
+  exists bs, w' = w_append w bs /\
+    forall s tail, rsrc s bs tail ->
+      read_all m (map fst l) (r_of_src s) = Ok (map snd l, r_of_src (src_adv s (bl bs) tail)).
+Proof. exact sequence_gen. Qed.
+
+(** * ingredients of independent interest *)
+Theorem C01_utf8_roundtrip : forall cs, Forall scalar cs -> utf8_decode (utf8_encode cs) = Some cs.
+Proof. exact utf8_roundtrip. Qed.
+
+Theorem C01_octet_padding : forall l,
+  bits_of_bytes (bytes_of_bits l) = l ++ repeat false (pad8 (length l)).
+Proof. exact bits_of_bytes_of_bits. Qed.
+
+(** * witnesses of the excluded classes ([rt_fails]: the write succeeds and reading the produced
+      bits back does not return the value at the end of the bits) *)
+Theorem C01_refuted_count_16k :
+  exists m t v, wf_ty t /\ wf_val t v /\ Known_C01 m t v /\ rt_fails m t v = true.
+Proof. exact refuted_count_16k. Qed.
+
+Theorem C01_refuted_bitstring_16k :
+  exists m t v, wf_ty t /\ Known_C01 m t v /\ rt_fails m t v = true.
+Proof. exact refuted_bitstring_16k. Qed.
+
+Theorem C01_refuted_open_type_16k :
+  exists m t v, wf_ty t /\ is_ok (write_ty m t v w_empty) = true /\ rt_fails m t v = true.
+Proof. exact refuted_open_type_16k. Qed.
+
+Theorem C01_refuted_size_F10_1 :
+  exists m t v, wf_ty t /\ wf_val t v /\ Known_C01 m t v /\ is_ok (write_ty m t v w_empty) = false.
+Proof. exact refuted_size_F10_1. Qed.
+
+(** * non-vacuity: a nested extensible SEQUENCE with OPTIONAL, DEFAULT, CHOICE (extension
+      alternative), a SEQUENCE OF of 3 elements and three extension additions *)
+Example C01_nonvacuous :
+  wf_ty ex_ty /\ wf_val ex_ty ex_val /\
+  (exists w', write_ty dev_mode ex_ty ex_val w_empty = Ok w' /\
+     let bs := w_bits w' in
+     enc dev_mode ex_ty ex_val = Ok bs /\
+     read_ty dev_mode ex_ty (r_of_src (src_of_bits (bs ++ [true; false]) (bl bs + 2)))
+     = Ok (ex_val, r_of_src (src_adv (src_of_bits (bs ++ [true; false]) (bl bs + 2)) (bl bs) [true; false]))).
+Proof. exact nonvacuous_c01. Qed.
+
+Print Assumptions C01_roundtrip.
+Print Assumptions C01_roundtrip_reference.
+Print Assumptions C01_writer_is_reference.
+Print Assumptions C01_reader_inverts_reference.
+Print Assumptions C01_sequence.
+Print Assumptions C01_sequence_any_writer.
+Print Assumptions C01_utf8_roundtrip.
+Print Assumptions C01_octet_padding.
+Print Assumptions C01_refuted_count_16k.
+Print Assumptions C01_refuted_bitstring_16k.
+Print Assumptions C01_refuted_open_type_16k.
+Print Assumptions C01_refuted_size_F10_1.
+Print Assumptions C01_nonvacuous.
